@@ -185,8 +185,8 @@ Theorem C01_flattenings_agree :
   forall S frs rt g r sels fns,
     flatten g S frs rt r sels = Some fns ->
     forall f, f >= g ->
-      resolve f S frs sels r = Ok (fns, []) /\
-      (forall under, collect f S frs rt under sels = Some (map (node_of_fnode under) fns)).
+      resolve f S frs false sels r = Ok (fns, []) /\
+      collect f S frs rt false sels = Some (map (node_of_fnode false) fns).
 Proof. exact flatten_both_ex. Qed.
 Print Assumptions C01_flattenings_agree.
 
@@ -213,23 +213,60 @@ Theorem C01_typename_partition :
 Proof. exact typename_partition. Qed.
 Print Assumptions C01_typename_partition.
 
-(* ---- refutations on the faithful model: the witnesses are the examples of known_findings/C01.json ---- *)
+(* ---- refutations on the faithful model: the witnesses are the examples of known_findings/C01.json.
+        C01_accepts_full itself is still refuted: a conditional __typename below the root stays a
+        required Literal (C01_accepts_refuted_conditional_typename) ---- *)
 Definition C0 : cfg := {| cf_snake := true; cf_scalars := [] |}.
 Definition std := [("Int", DScalar); ("String", DScalar); ("ID", DScalar); ("Boolean", DScalar)].
 
-(* F3: @include on an inline fragment leaves its fields required *)
+(* F3 (repaired in /repo, fixes/C01-conditional-fragments.diff): @include on an inline fragment used to leave
+   its fields required; now fields collected under a conditional fragment come out conditional, and the
+   former refutation witness is a regression example: the response without the fragment is accepted and
+   covered *)
 Definition S3 : schema :=
   {| s_types := [("Query", DObject [] [("a", TNamed "A")]); ("A", DObject [] [("x", TNonNull (TNamed "Int"))])] ++ std;
      s_query := Some "Query"; s_mutation := None; s_subscription := None |}.
-Theorem C01_accepts_refuted_conditional_fragment : ~ C01_accepts_full.
+Example C01_conditional_fragment_regression :
+  exists cls,
+    all_classes 30 C0 S3 [] (DOp "query" "Q" []
+       [SField None "a" false [] (Some [SInline (Some "A") true [SField None "x" false [] None]])]) = Ok cls /\
+    conf_op 30 S3 [] "Query"
+       [SField None "a" false [] (Some [SInline (Some "A") true [SField None "x" false [] None]])]
+       (JObj [("a", JObj [])]) = true /\
+    accepts 30 cls (schema_enums S3) (AClass "Q") (JObj [("a", JObj [])]) = true /\
+    covers 30 cls (AClass "Q") (JObj [("a", JObj [])]) = true /\
+    accepts 30 cls (schema_enums S3) (AClass "Q") (JObj [("a", JObj [("x", JInt 1)])]) = true.
+Proof. eexists. split; [vm_compute; reflexivity|]. vm_compute. repeat split. Qed.
+
+(* a conditional spread of a fragment that would otherwise be a mixin base class is unpacked (its fields
+   become optional fields of the class), while an unconditional spread of the same fragment elsewhere
+   still uses the base class *)
+Definition FC : list fragdef :=
+  [{| fr_name := "AX"; fr_on := "A"; fr_mixins := []; fr_sel := [SField None "x" false [] None] |}].
+Definition S3b : schema :=
+  {| s_types := [("Query", DObject [] [("a", TNamed "A"); ("b", TNamed "A")]);
+                 ("A", DObject [] [("x", TNonNull (TNamed "Int"))])] ++ std;
+     s_query := Some "Query"; s_mutation := None; s_subscription := None |}.
+Example C01_conditional_spread_regression :
+  exists cls,
+    all_classes 30 C0 S3b FC (DOp "query" "Q" []
+       [SField None "a" false [] (Some [SSpread "AX" true]);
+        SField None "b" false [] (Some [SSpread "AX" false])]) = Ok cls /\
+    map c_bases cls = [["BaseModel"]; ["BaseModel"]; ["AX"]; ["BaseModel"]] /\
+    accepts 30 cls (schema_enums S3b) (AClass "Q") (JObj [("a", JObj []); ("b", JObj [("x", JInt 1)])]) = true /\
+    accepts 30 cls (schema_enums S3b) (AClass "Q") (JObj [("a", JObj []); ("b", JObj [])]) = false.
+Proof. eexists. split; [vm_compute; reflexivity|]. vm_compute. repeat split. Qed.
+
+(* a __typename under @skip/@include below the operation root stays a required Literal *)
+Theorem C01_accepts_refuted_conditional_typename : ~ C01_accepts_full.
 Proof.
   intro H.
   specialize (H 30 C0 S3 [] "query" "Q" []
-                [SField None "a" false [] (Some [SInline (Some "A") true [SField None "x" false [] None]])]
-                "Query" _ (JObj [("a", JObj [])]) eq_refl eq_refl eq_refl).
+                [SField None "a" false [] (Some [SField None "__typename" true [] None; SField None "x" false [] None])]
+                "Query" _ (JObj [("a", JObj [("x", JInt 1)])]) eq_refl eq_refl eq_refl).
   vm_compute in H. discriminate.
 Qed.
-Print Assumptions C01_accepts_refuted_conditional_fragment.
+Print Assumptions C01_accepts_refuted_conditional_typename.
 
 (* F27: a composite field selected directly and through a mixin fragment is not merged *)
 Definition S27 : schema :=
@@ -322,7 +359,7 @@ Proof. eexists. split; [vm_compute; reflexivity|]. vm_compute. repeat split. Qed
 
 (* ---- non-vacuity of the partial theorems: nested (two levels of objects), aliased, list-wrapped,
         conditional fields, enum, __typename literal, a spread of a fragment on an interface and nested
-        inline fragments (flattened), an interface-typed field with a variant (Node: base class + User class)
+        inline fragments under @include (flattened, their fields conditional), an interface-typed field with a variant (Node: base class + User class)
         and a union-typed field (Hit = User | Bot) ---- *)
 Definition SX : schema :=
   {| s_types := [("Query", DObject [] [("user", TNamed "User");
@@ -341,9 +378,10 @@ Definition SX : schema :=
 Definition selsX : list sel :=
   [SField (Some "people") "users" false []
      (Some [SField None "__typename" false [] None; SSpread "NodeBits" false;
-            SInline (Some "User") false
-              [SField (Some "name") "fullName" true [] None;
-               SInline (Some "Node") false [SField None "role" false [] None]];
+            SInline (Some "User") true
+              [SField (Some "name") "fullName" false [] None;
+               SInline (Some "Node") false [SField (Some "nick") "fullName" false [] None]];
+            SField None "role" false [] None;
             SField (Some "homeAddress") "address" false []
               (Some [SField None "city" false [] None; SField None "zip" true [] None]);
             SField None "tags" false [] None]);
